@@ -659,6 +659,7 @@ func (r *proxyStreamReceiver) Run(
 			// The active-receiver entry is overwritten only once a successor has opened its stream: remove it unless
 			// that has happened (a successor that fails to open its stream must not leave our entry behind).
 			if current, ok := r.shardManager.GetActiveReceiver(r.sourceShardID); ok && current == ActiveReceiver(r) {
+				vfYield("activereceiver.window")
 				r.shardManager.UnregisterActiveReceiver(r.sourceShardID)
 			}
 		}()
